@@ -302,7 +302,7 @@ def _sequential_exec(ir):
 # ------------------------------------------------------------------------------------------
 # from equations to the incidence matrix: every Sequential model of 3 equations over {none, zero shift, lag, zero shift + lag} usages
 # ------------------------------------------------------------------------------------------
-_USAGE = ("none", "zero", "lag", "both")
+_USAGE = ("none", "zero", "lag", "both", "lead")       # a lead, like a lag, is not a zero-shift dependency
 
 
 def _model_from_usage(states, own):
@@ -321,6 +321,8 @@ def _model_from_usage(states, own):
                 rhs.append(f"0.5*x{j}")
             if st in ("lag", "both"):
                 rhs.append(f"0.125*x{j}[-1]")
+            if st == "lead":
+                rhs.append(f"0.0625*x{j}[+1]")
         lines.append(f"  x{i} = " + " + ".join(rhs) + ";")
     return "!equations\n" + "\n".join(lines) + "\n"
 
@@ -358,24 +360,36 @@ def _usage_verdict(ir, states, own):
     return True, "ok"
 
 
+def _usage_chunk(args):
+    """worker: all models with the given own-lag pattern and the given usage of the first pair; returns (count, first failure or None)"""
+    own, first = args
+    ir = load_irispie()
+    n = len(own)
+    pairs = [(i, j) for i in range(n) for j in range(n) if i != j]
+    count = 0
+    for combo in itertools.product(_USAGE, repeat=len(pairs) - 1):
+        states = dict(zip(pairs, (first,) + combo))
+        count += 1
+        try:
+            ok, msg = _usage_verdict(ir, states, own)
+        except Exception as exc:
+            ok, msg = False, f"raises {type(exc).__name__}: {str(exc)[:120]}"
+        if not ok:
+            return count, dict(msg=msg, states=[[i, j, st] for (i, j), st in states.items()], own=list(own), src=_model_from_usage(states, own))
+    return count, None
+
+
 def check_usage_models(run, ir, tier):
     """executed (no solver: the program text is enumerated, there is no value dimension): all 3-equation models"""
     key = "Sequential.incidence_matrix + sequentialize on every 3-equation usage pattern (executed)"
     n = 3
-    pairs = [(i, j) for i in range(n) for j in range(n) if i != j]
     owns = list(itertools.product((False, True), repeat=n)) if tier == "thorough" else [(False,) * n, (True,) * n, (True, False, False)]
-    count = 0
-    for own in owns:
-        for combo in itertools.product(_USAGE, repeat=len(pairs)):
-            states = dict(zip(pairs, combo))
-            count += 1
-            ok, msg = _usage_verdict(ir, states, own)
-            if not ok:
-                run.extra["usage_models_executed"] = count
-                run.counterexample(key, "sequential:incidence", msg + f" [model: {_model_from_usage(states, own)!r}]"[:300],
-                                   dict(kind="usage_model", states=[[i, j, st] for (i, j), st in states.items()], own=list(own)))
-                return
-    run.extra["usage_models_executed"] = count
+    outs = _pool_map(_usage_chunk, [(own, first) for own in owns for first in _USAGE])
+    run.extra["usage_models_executed"] = sum(c for c, _ in outs)
+    for c, fail in outs:
+        if fail is not None:
+            run.counterexample(key, "sequential:incidence", (fail["msg"] + f" [model: {fail['src']!r}]")[:300], dict(kind="usage_model", states=fail["states"], own=fail["own"]))
+            return
     run.extra["executed_obligations"] = run.extra.get("executed_obligations", 0) + 1
     run.ok(key, nontrivial=False)
 
@@ -391,8 +405,8 @@ def main(run):
     run.bounds["paths"] = "path bound 400 (n<=3) / 70000 (n=4); hitting the bound is reported as inconclusive"
     run.assumptions += ["a perfect matching exists (disjunction over the n! permutations)", "numpy sum/where/delete/argsort/flip act on the symbolic objects; "
                         "every comparison is a recorded concolic branch"]
-    run.bounds["usage_models"] = ("executed: every Sequential model of 3 equations in which equation i uses x_j not at all / at zero shift / at a lag / at both, with own lags "
-                                  "(3 patterns quick, all 8 thorough): 12288 / 32768 models; incidence matrix compared with the zero-shift usage, sequentialize outcome checked")
+    run.bounds["usage_models"] = ("executed: every Sequential model of 3 equations in which equation i uses x_j not at all / at zero shift / at a lag / at both / "
+                                  "or at a lead, with own lags (3 patterns quick, all 8 thorough): 46875 / 125000 models, in a worker pool; incidence matrix compared with the zero-shift usage, sequentialize outcome checked")
     run.functions_encoded += ["equations.calculate_incidence_matrix, sequentials.main.Sequential.incidence_matrix (executed on the enumerated models)"]
     run.outside += ["n > 4 (the property's sampled larger cases)", "_dulmage_mendelsohn (unused by blaze)"]
     quick = run.tier == "quick"
